@@ -3,7 +3,7 @@ clauses (requires / ensures / invariant / decreases / proof hints) from /verif/v
 with the prelude in one verus!{} file and run `verus file.rs --output-json --time`.
 
 Rewrite rules (each application is counted and reported):
-  R1 assert!(e)/debug_assert!(e)   -> assert(e)                       (strengthens: can-never-fire becomes an obligation)
+  R1 assert!(e)/debug_assert!(e)   -> if !(e) { assert(false); }      (strengthens: can-never-fire becomes an obligation)
   R2 `if C { continue; }` as first statement of a `for` body -> `if !(C) { rest }`   (Verus: no continue in for)
   R3 blend_fn(a,b,c) through Box<dyn Fn> -> blend_fn.call(a,b,c)      (prelude shim, trusted spec == spec_blend(mode,..))
   R6 format!(...) -> String::new()                                     (message text is not part of any property)
@@ -38,7 +38,36 @@ def _rewrite(body, rules, counts):
         if n:
             counts[k] = counts.get(k, 0) + n
     if "R1" in rules:
-        body, n = re.subn(r"\b(?:debug_)?assert!\s*\(", "assert(", body)
+        # assert!(C [, msg..]) / debug_assert!(..)  ->  if !(C) { assert(false); }   (the condition may call exec
+        # functions, so it stays executable; "the assertion can never fire" becomes the obligation assert(false))
+        out, i, n = "", 0, 0
+        while True:
+            m = re.search(r"\b(?:debug_)?assert!\s*\(", body[i:])
+            if not m:
+                out += body[i:]
+                break
+            s = i + m.start()
+            o = i + m.end() - 1
+            mk = rsx.mask(body)
+            c = rsx.match_brace(mk, o, "(", ")")
+            inner, inner_m = body[o + 1:c], mk[o + 1:c]
+            depth, cut = 0, len(inner)
+            for k, ch in enumerate(inner_m):
+                if ch in "([{":
+                    depth += 1
+                elif ch in ")]}":
+                    depth -= 1
+                elif ch == "," and depth == 0:
+                    cut = k
+                    break
+            cond = inner[:cut].strip()
+            out += body[i:s] + "if !(%s) { assert(false); }" % cond
+            i = c + 1
+            # swallow the statement's semicolon
+            if body[i:i + 1] == ";":
+                i += 1
+            n += 1
+        body = out
         cnt("R1", n)
     if "R6" in rules:
         # format!( ... ) with balanced parens -> String::new()
@@ -221,7 +250,7 @@ def build_unit(scratch, name, unit):
                 txt = "impl %s {\n%s}\n" % (it.get("impl_header", it["impl_of"]), txt)
             start = sum(p.count("\n") for p in parts) + 1
             parts.append(txt)
-            fn_lines[it["name"]] = (start, start + txt.count("\n"))
+            fn_lines[it.get("key") or (it["impl_of"] + "::" + it["name"] if it.get("impl_of") and it["name"] in fn_lines else it["name"])] = (start, start + txt.count("\n"))
         elif it["kind"] == "enum":
             et = rsx.find_enum(src, it["name"])
             et = re.sub(r"^(pub(\([^)]*\))?\s+)?enum", "pub enum", et)
@@ -291,8 +320,11 @@ def classify(unit_name, res, fn_name):
         ln = int(em.group(2))
         if lo <= ln <= hi:
             errs.append((em.group(1), ln))
-    ent = fb.get(fn_name)
+    short = fn_name.split("::")[-1]
+    ent = fb.get(short) if sum(1 for k in res["fn_lines"] if k.split("::")[-1] == short) == 1 else None
     secs = (ent or {}).get("time-micros", 0) / 1e6
+    if fn_name not in res["fn_lines"]:
+        return "undecided", "function %s is not part of unit %s" % (fn_name, unit_name), 0.0, None
     if not vr.get("success") and not fb and not errs:
         return "undecided", "verus failed before verification: %s" % diag[:500], 0.0, None
     if errs:
@@ -301,16 +333,15 @@ def classify(unit_name, res, fn_name):
             detail = "; ".join("%s (generated line %d: %s)" % (e[0], e[1], res["text"].splitlines()[e[1] - 1].strip()[:120]) for e in sem[:4])
             return "failed", detail, secs, diag
         return "undecided", "verus error that is not a failed obligation: %s" % "; ".join(e[0] for e in errs[:3]), secs, None
-    if ent is None:
-        # trivially-true functions may not reach the solver; accept only if overall success
-        if vr.get("success"):
-            return "discharged", "", 0.0, None
-        return "undecided", "function not reported by verus", 0.0, None
-    if ent.get("success"):
-        return "discharged", "", secs, None
     if re.search(r"rlimit|Resource limit|timed out", diag):
         return "undecided", "solver resource limit", secs, None
-    return "failed", "verus reports failure for %s: %s" % (fn_name, diag[:800]), secs, diag
+    # no diagnostic inside this function's line range and the run reached verification: discharged
+    # (a failure of ANOTHER function of the unit does not taint this one; every function is checked)
+    if vr.get("success") or (isinstance(vr.get("verified"), int) and vr.get("verified") > 0):
+        if ent is not None and not ent.get("success"):
+            return "failed", "verus reports failure for %s: %s" % (fn_name, diag[:800]), secs, diag
+        return "discharged", "", secs, None
+    return "undecided", "function not reported by verus", 0.0, None
 
 
 def run(ctx, obls):
